@@ -847,9 +847,10 @@ func (a *Agent) DownloadAdd(FileID int, FilePath string, FileSize int64) error {
 		DemonDownload    = DemonDownloadDir + "/" + strings.Join(FileSplit[:len(FileSplit)-1], "/")
 	)
 
-	/* check if we don't have a path traversal */
+	/* check if we don't have a path traversal: the directory has to be the download
+	 * directory itself or lie below it ("Download2" also starts with "Download") */
 	path := filepath.Clean(DemonDownload)
-	if !strings.HasPrefix(path, DemonDownloadDir) {
+	if path != DemonDownloadDir && !strings.HasPrefix(path, DemonDownloadDir+"/") {
 		logger.Error("File didn't started with agent download path. abort")
 		return errors.New("File didn't started with agent download path. abort")
 	}
